@@ -204,6 +204,7 @@ pub fn generate(sink: &mut Sink, seed: u64, thorough: bool) {
     // counts the plain attribute insertions: placement (front or end of the start tag) and the blob elements
     // are taken in turn from it, so that no random draw is added and every other case keeps its stream
     let mut attr_turn = 0usize;
+    let mut vec_turn = 0usize;
     let n = if thorough { 1500 } else { 220 };
     let mut made = 0;
     let mut tries = 0;
@@ -453,7 +454,25 @@ pub fn generate(sink: &mut Sink, seed: u64, thorough: bool) {
                 continue;
             }
             if !vec_pts.is_empty() && rng.chance(1, 3) {
-                (*rng.pick(&vec_pts), foreign_element(&mut rng), "element-in-vector")
+                let (mut at, mut el) = (*rng.pick(&vec_pts), foreign_element(&mut rng));
+                // every second insertion into a vector of a document with original guids: a foreign String element
+                // among the guids (taken in turn, no random draw added)
+                vec_turn += 1;
+                let guid_pts: Vec<usize> = vec_pts.iter().copied().filter(|&p| {
+                    let b = &xml[..p];
+                    match (b.rfind("<originalGuids"), b.rfind("</originalGuids>")) {
+                        (Some(o), Some(c)) => o > c,
+                        (Some(_), None) => true,
+                        _ => false,
+                    }
+                }).collect();
+                if !guid_pts.is_empty() && vec_turn % 2 == 0 {
+                    let k = vec_turn / 2;
+                    at = guid_pts[k % guid_pts.len()];
+                    el = foreign_like(["vectorChild", "guid", "custom7"][k % 3], "String");
+                    sink.stat("insert_string_among_original_guids");
+                }
+                (at, el, "element-in-vector")
             } else {
                 (*rng.pick(&pts), foreign_element(&mut rng), "element")
             }
